@@ -102,7 +102,8 @@ func init() {
 				h("cont.H_Build", bld(1, 2, 2), bld(1, 2, 4), append([]string{"model_cycle"}, buildCov...), 0, buildDesc))
 		case "C06":
 			properties[i].Harnesses = append(properties[i].Harnesses,
-				h("cont.H_Order", bld(0, 3, 2), bld(0, 3, 4), []string{"both_built", "both_failed_or_differ"}, 20, "the same world registered and built twice: registration order permuted (intra-group order kept) and another map-order scheme; verdict classes equal, wiring of both isomorphic to the model, every singleton constructed after the singletons it received"),
+				h("cont.H_Order", bld(3, 3, 2), bld(0, 3, 2), []string{"both_built", "both_failed_or_differ"}, 20, "the same world registered and built twice: registration order permuted (intra-group order kept) and another map-order scheme; verdict classes equal, wiring of both isomorphic to the model, every singleton constructed after the singletons it received"),
+				h("cont.H_Order", bld(0, 2, 2), bld(0, 2, 4), []string{"both_built", "both_failed_or_differ"}, 0, "as above, every plain dependency shape on two registrations"),
 				h("cont.H_Order", bld(1, 2, 2), bld(1, 2, 4), []string{"both_built", "both_failed_or_differ"}, 0, "as above on keyed / group / interface edges"))
 		}
 	}
